@@ -53,6 +53,13 @@ class Rng:
     def chance(self, num, den):
         return self.below(den) < num
 
+    def sample(self, xs, k):
+        xs = list(xs)
+        out = []
+        while xs and len(out) < k:
+            out.append(xs.pop(self.below(len(xs))))
+        return out
+
     def fork(self, label):
         h = hashlib.sha256(("%d/%s" % (self.s, label)).encode()).digest()
         return Rng(int.from_bytes(h[:8], "little"))
